@@ -1,4 +1,5 @@
 import AcraModel.KeystoreSec.Concurrent
+import AcraModel.KeystoreSec.FileLock
 /-!
 Driver ops for C17: replay an observed global order of back-end calls through the model.
 
@@ -12,6 +13,19 @@ Driver ops for C17: replay an observed global order of back-end calls through th
 
 Result: `T <calls joined by />  final <ring>…  res <per-thread outcomes>`; a scheduled thread that
 cannot make a call prints `<tid>BLOCKED` and stops the replay.
+
+`C17.locklife <history> <s>.<dataS> <u>.<dataU>` – the life cycle of the lock file (`KeystoreSec/FileLock.lean`,
+run with the regenerated `closeUnlinks`), then the race of two writers decided by it:
+* history = comma-joined `o` / `p` (a handle is opened: `CreateDirectoryBackend` / `OpenDirectoryBackend`; handle ids
+  count from 0 in the order of opening), `c<k>` (handle k is closed), `r<k>` (handle k runs a read cycle:
+  `RLock … RUnlock`), `w<k>.<data>` (handle k opens the ring for writing and adds a key: two `Lock … Unlock` cycles)
+* then handles s and u (both open) each hold a fresh snapshot of the ring; s starts `AddKey(dataS)` and is held
+  between its `Get` and its `Put`; u starts `AddKey(dataU)`. Data 0 makes the handle a *reader* instead (`OpenKeyRing`:
+  `RLock, Get, RUnlock`; s is then held before its `Get`).
+Result: `ino <inode class of every handle, in order of first appearance> ring <ring before the race> overlap=<0|1>
+res <s's outcomes> <u's outcomes> final <ring>` – overlap=1: u's `flock` does not wait for s's (another inode, or
+shared next to shared). `BLOCKED <token>` when a step of the sequential history could not take its lock.
+`C17.locklifeP …` is the same op with every handle in its own operating-system process on the implementation side.
 -/
 namespace Driver.C17
 open AcraModel AcraModel.KeystoreSec.Conc
@@ -110,8 +124,94 @@ def showRes (hd : Handle) : String :=
 def takeN {α} (n : Nat) (xs : List α) : Option (List α × List α) :=
   if xs.length < n then none else some (xs.take n, xs.drop n)
 
+
+/-! ### lock-file life cycle -/
+section locklife
+open AcraModel.KeystoreSec.FileLock
+
+/-- `Lock … Unlock` / `RLock … RUnlock` of handle `i` with nobody else running; `none` = it would block -/
+def lockCycle (cu : Bool) (ls : LState) (i : Nat) (m : Mode) : Option LState :=
+  let a := lstep cu ls (.enter i m)
+  let b := lstep cu a (.acquire i)
+  if (b.h i).held = some m then some (lstep cu b (.release i)) else none
+
+def parsePair (s : String) : Option (Nat × Nat) :=
+  match s.splitOn "." with
+  | [a, b] => do let a ← a.toNat?; let b ← b.toNat?; pure (a, b)
+  | _ => none
+
+/-- run the sequential history; `Except` carries the token that blocked -/
+def lifeHistory (cu : Bool) : List String → LState × Ring → Option (Except String (LState × Ring))
+  | [], st => some (.ok st)
+  | tok :: rest, (ls, ring) =>
+    let body := (tok.drop 1).toString
+    match (tok.take 1).toString with
+    | "o" | "p" => if body = "" then lifeHistory cu rest (lstep cu ls .openH, ring) else none
+    | "c" => do let k ← body.toNat?; lifeHistory cu rest (lstep cu ls (.closeH k), ring)
+    | "r" => do
+      let k ← body.toNat?
+      match lockCycle cu ls k .sh with
+      | some ls' => lifeHistory cu rest (ls', ring)
+      | none => pure (.error tok)
+    | "w" => do
+      let (k, d) ← parsePair body
+      -- OpenKeyRingRW (creates the ring when missing), then AddKey from the fresh snapshot
+      match (lockCycle cu ls k .ex).bind fun l => lockCycle cu l k .ex with
+      | some ls' =>
+        let ring' := ((Tx.add ⟨ring.nextSeq, stPreActive, d⟩).apply ring).getD ring
+        lifeHistory cu rest (ls', ring')
+      | none => pure (.error tok)
+    | _ => none
+
+def lockLife (hist : String) (sa ua : String) : Option String := do
+  let cu := closeUnlinks
+  let (s, dS) ← parsePair sa
+  let (u, dU) ← parsePair ua
+  if s = u then none
+  let toks := if hist = "-" then [] else hist.splitOn ","
+  match ← lifeHistory cu toks (linit none, emptyRing) with
+  | .error tok => pure s!"BLOCKED {tok}"
+  | .ok (ls, ring) =>
+    let inos := classes ((List.range ls.n).map fun i => (ls.h i).ino)
+    let inoS := if inos.isEmpty then "-" else ",".intercalate (inos.map toString)
+    -- both writers open the ring (sequentially): two more exclusive cycles
+    match (lockCycle cu ls s .ex).bind fun l => lockCycle cu l u .ex with
+    | none => pure s!"BLOCKED open"
+    | some ls =>
+      -- data 0 = a reader (shared lock, `Op.refresh`), otherwise `AddKey` of that key (exclusive lock)
+      let mS : Mode := if dS = 0 then .sh else .ex
+      let mU : Mode := if dU = 0 then .sh else .ex
+      let opOf (d : Nat) : Op := if d = 0 then .refresh else .addKey d
+      -- s takes its lock and is held; u asks for its own
+      let l1 := lstep cu (lstep cu ls (.enter s mS)) (.acquire s)
+      let l2 := lstep cu (lstep cu l1 (.enter u mU)) (.acquire u)
+      if (l2.h s).held ≠ some mS then pure s!"BLOCKED race" else
+      let overlap := (l2.h u).held = some mU
+      -- the two operations themselves: the concurrency model, threads 0 (= s) and 1 (= u)
+      let dummy : Handle := ⟨0, emptyRing, [], [], [], .idle⟩
+      let c0 : St := { cur := fun _ => ring, new := fun _ => none, writer := none, readers := [],
+                       h := fun i => if i = 0 then ⟨0, ring, [], [opOf dS], [], .idle⟩
+                                     else if i = 1 then ⟨0, ring, [], [opOf dU], [], .idle⟩ else dummy,
+                       commits := [] }
+      -- s up to where it is held: a writer `Lock, Get` (before its Put), a reader `RLock` (before its Get)
+      let c1 := if dS = 0 then step c0 0 else step (step c0 0) 0
+      let c2 :=
+        if overlap then
+          -- the life-cycle model lets u's flock through (another inode, or shared next to shared): u runs to
+          -- its end as if the lock were free, then s's hold is restored
+          let c := (List.replicate 5 1).foldl step { c1 with writer := none, readers := [] }
+          { c with writer := c1.writer, readers := c1.readers }
+        else step c1 1                  -- u waits
+      let c3 := (List.replicate 3 0).foldl step c2   -- s: (Put, Rename,) Unlock / Get, RUnlock
+      let c4 := (List.replicate 5 1).foldl step c3   -- u: whatever it has left
+      pure s!"ino {inoS} ring {showRing ring} overlap={if overlap then 1 else 0} res {showRes (c4.h 0)} {showRes (c4.h 1)} final {showRing (c4.cur 0)}"
+
+end locklife
+
 def handle (op : String) (args : List String) : Option String :=
   match op, args with
+  | "locklife", [hist, sa, ua] => lockLife hist sa ua
+  | "locklifeP", [hist, sa, ua] => lockLife hist sa ua   -- the same history, one OS process per handle
   | "replay", nr :: rest => do
     let nr ← nr.toNat?
     let (rs, rest) ← takeN nr rest
